@@ -8,6 +8,7 @@ import (
 	"bytes"
 	"fmt"
 	"sync/atomic"
+	"time"
 
 	"github.com/Tnze/go-mc/level"
 	"github.com/Tnze/go-mc/save"
@@ -242,7 +243,7 @@ func opsString(ops []Op) string {
 }
 
 // counterPart enumerates every history of depth 0..D x every start x every round-trip place.
-func counterPart(D int, allRT bool) {
+func counterPart(D int, allRT bool, deadline time.Time) {
 	type item struct {
 		start, d, lo, hi int
 	}
@@ -261,8 +262,13 @@ func counterPart(D int, allRT bool) {
 		}
 		pow *= nCtrOps
 	}
+	var skipped int64
 	engine.ParallelFor(len(items), func(_, ii int) {
 		it := items[ii]
+		if time.Now().After(deadline) {
+			atomic.AddInt64(&skipped, int64(it.hi-it.lo))
+			return
+		}
 		ops := make([]Op, it.d)
 		for seq := it.lo; seq < it.hi; seq++ {
 			x := seq
@@ -280,6 +286,9 @@ func counterPart(D int, allRT bool) {
 			}
 		}
 	})
+	if skipped > 0 {
+		rep.Cap("counter part: deadline hit, %d operation sequences (longest depth last) not executed", skipped)
+	}
 	rep.Extra("counter_history_depth", D)
 	rep.Extra("counter_round_trip_at_every_place_from_every_start", allRT)
 }
